@@ -65,8 +65,11 @@ def Rho.shift {ι : Type} (ρ : Rho ι) (a b c d : Nat) : Rho ι :=
 microsecond field is zero (`stamp` is in microseconds). -/
 def isoTextLen (t : Nat) : Nat := if t % 1000000 = 0 then 19 else 26
 
-/-- Length of the decimal text of a number (the ICMP identifier `secrets.randbits(16)` inside the JSON of a frame). -/
-def decimalLen (n : Nat) : Nat := (Nat.repr n).length
+/-- Length of the decimal text of a number (the ICMP identifier inside the JSON of a frame; the driver op `declen` checks it
+against `len(str(n))`). -/
+def decimalLen (n : Nat) : Nat :=
+  if n < 10 then 1 else if n < 100 then 2 else if n < 1000 then 3 else if n < 10000 then 4 else if n < 100000 then 5
+  else 5 + decimalLen (n / 100000)
 
 /-- Length of `secrets.token_urlsafe(n)`: unpadded base64 of `n` bytes — the same for every value drawn. -/
 def tokenUrlsafeLen (n : Nat) : Nat := (4 * n + 2) / 3
@@ -151,8 +154,13 @@ def Prog.Safe {α : Type} (S : Fam → Bool) (P : Prop) : Prog α → Prop
   | .iterSet c _ k => Invariant c ∧ ∀ r, (k r).Safe S P
   | .rand f _ k => S f = true ∧ ∀ r, (k r).Safe S P
 
-/-- All unseeded readings of the two runs have texts of the same length (the hypothesis that excludes F-9; e.g. no
-clock reading with a zero microsecond field in either run). -/
+/-- The text of an unseeded reading has the same length whatever the reading (the code after the F-9 repair: timestamps are
+serialised with the microsecond field always present, generated ICMP identifiers have five digits). A property of the code's
+text-length function, NOT of the environments. -/
+def Fixed.FixedWidth (g : Fixed) : Prop := ∀ t t', g.textLen t = g.textLen t'
+
+/-- All unseeded readings of the two runs have texts of the same length (before the F-9 repair this was a hypothesis on the
+environments - e.g. no clock reading with a zero microsecond field in either run; with a fixed-width text it holds for all). -/
 def StampLenAgree {ι ι' : Type} (g : Fixed) (ρ : Rho ι) (ρ' : Rho ι') : Prop :=
   ∀ k k', g.textLen (ρ.stamp k) = g.textLen (ρ'.stamp k')
 
